@@ -856,6 +856,8 @@ fn search_listen_time(obs: &[&str]) {
         std::thread::sleep(Duration::from_millis(150));
         let b = UnixStream::connect(&path);
         let mut b_reply = Vec::new();
+        let mut c_reply: Vec<u8> = Vec::new();
+        let mut c_conn: Option<UnixStream> = None;
         let mut t_b_closed = std::time::Instant::now();
         if let Ok(mut b) = b {
             let _ = b.write_all(&render(&alphabet()[0]));
@@ -864,19 +866,28 @@ fn search_listen_time(obs: &[&str]) {
             let _ = b.set_read_timeout(Some(Duration::from_millis(4000)));
             let mut buf = [0u8; 4096];
             if let Ok(n) = b.read(&mut buf) { b_reply.extend_from_slice(&buf[..n]); }
-            // B stays connected, idle, for 2.2 s (more than twice the idle timeout)
-            std::thread::sleep(Duration::from_millis(2200));
+            // B stays connected, idle, for 2.2 s (more than twice the idle timeout); 1.6 s into that, C connects and sends a request: it is queued behind B
+            std::thread::sleep(Duration::from_millis(1600));
+            let c = UnixStream::connect(&path);
+            if let Ok(mut c) = c { let _ = c.write_all(&render(&alphabet()[0])); c_conn = Some(c); }
+            std::thread::sleep(Duration::from_millis(600));
             t_b_closed = std::time::Instant::now();
             drop(b);
+            if let Some(c) = c_conn.as_mut() {
+                let _ = c.set_read_timeout(Some(Duration::from_millis(4000)));
+                let mut buf = [0u8; 4096];
+                if let Ok(n) = c.read(&mut buf) { c_reply.extend_from_slice(&buf[..n]); }
+            }
+            drop(c_conn.take());
         }
         let (r, t_ret) = t.join().unwrap_or((Err("PANIC".into()), std::time::Instant::now()));
         let _ = std::fs::remove_dir_all(&dir);
         let early = t_ret < t_b_closed && t_b_closed.duration_since(t_ret).as_millis() > 300;
-        if (b_reply.is_empty() || early) && found.is_none() {
-            found = Some(json!({"workers": "initial = max = 1", "idle_timeout_s": 1, "history": "A connects; B connects and sends GetInfo (queued); A leaves; B is answered and stays connected for 2.2 s",
-                "reply_bytes_received_by_B": b_reply.len(), "listen_result": format!("{:?}", r),
+        if (b_reply.is_empty() || early || c_reply.is_empty()) && found.is_none() {
+            found = Some(json!({"workers": "initial = max = 1", "idle_timeout_s": 1, "history": "A connects; B connects and sends GetInfo (queued); A leaves; B is answered and stays connected for 2.2 s; C connects 1.6 s into that and sends GetInfo; B leaves",
+                "reply_bytes_received_by_B": b_reply.len(), "reply_bytes_received_by_C": c_reply.len(), "listen_result": format!("{:?}", r),
                 "listen_returned_ms_before_B_left": if t_ret < t_b_closed { t_b_closed.duration_since(t_ret).as_millis() as u64 } else { 0 },
-                "expected": "listen() keeps running while B is connected and returns Timeout about 1 s after B left"}));
+                "expected": "listen() keeps accepting while B is connected: C is accepted and answered once B has left"}));
         }
     }
     // (c) idle timeout AND stop flag: the flag is set shortly before the idle deadline, nothing in service: listen() must return Ok(()) ("stops accepting shortly after the flag is set and
